@@ -218,8 +218,53 @@ def run(F, rep, tier):
                 rep.ok('R17.2', 'Lvalue::%s' % v, 'rebuilt as itself')
             else:
                 rep.viol('R17.2', 'rewrite-lvalue|%s' % v, 'freeze_lvalue rebuilds Lvalue::%s as %s' % (v, sorted(built)), lb.loc(min(regn)) if regn else None)
+        # R17.3 for patterns: every LocExpr / Lvalue / IndexOrSlice child of a rebuilt pattern node is frozen
+        lv_adt = F.adts.get('core::Lvalue')
+        lv_fields = {v_['name']: v_['fields'] for v_ in lv_adt['variants']} if lv_adt else {}
+        nlv = 0
+        for i, a in enumerate(lm['arms']):
+            ps = [p_ for p_ in pat_paths(a['pat']) if p_.startswith('core::Lvalue::')]
+            if not ps:
+                continue
+            v = ps[0].rsplit('::', 1)[-1]
+            regn = arm_region(F, lb, lm, i)
+            cls_ = closure_closure(F, lb, regn)
+            cl_ff = any(is_ff(c.target) for cl in cls_ for c in F.body(cl).calls)
+            for bb, s_ in lb.aggregates(regn):
+                if s_[2][2] != 'core::Lvalue' or s_[2][4] != v:
+                    continue
+                for idx, f in enumerate(lv_fields.get(v, [])):
+                    needs = any(m_ in ('adt:core::LocExpr', 'adt:core::Lvalue', 'adt:core::IndexOrSlice') for m_ in f['mentions'])
+                    if not needs or idx >= len(s_[2][5]):
+                        continue
+                    nlv += 1
+                    og = origins(lb, s_[2][5][idx], passthru=('branch', 'new', 'from_output', 'into', 'from'))
+                    bad = [str(o[:2]) for o in og if not ((o[0] == 'call' and is_ff(o[1])) or (o[0] == 'call' and o[1].rsplit('::', 1)[-1] == 'collect' and cl_ff))]
+                    if og and not bad:
+                        rep.ok('R17.3', 'Lvalue::%s field %d' % (v, idx), 'from the freeze family')
+                    else:
+                        rep.viol('R17.3', 'child-lvalue|%s|field%d' % (v, idx), 'Lvalue::%s is rebuilt with field %d (%s) taken from %s instead of a frozen copy: a free variable inside a pattern (e.g. a type annotation) is resolved at use time, not at freeze time' % (v, idx, f['ty'][:50], bad), lb.loc(bb))
+        rep.floor('R17.3', 'sub-expression fields of patterns', nlv, 12)
     else:
         rep.error('R17.2', 'freeze_lvalue missing')
+    # which names a pattern binds: alternatives and conjunctions contribute the UNION of their names
+    ci = 'core::Lvalue::collect_identifiers'
+    if F.has_fn(ci):
+        cb_ = F.body(ci)
+        cm_ = find_match(F, ci, r'core::Lvalue', min_arms=8)
+        for i, a in enumerate(cm_['arms']):
+            ps = [p_.rsplit('::', 1)[-1] for p_ in pat_paths(a['pat']) if p_.startswith('core::Lvalue::')]
+            if not ps or ps[0] not in ('Or', 'And'):
+                continue
+            regn = arm_region(F, cb_, cm_, i)
+            names = [c.target.rsplit('::', 1)[-1] for c in cb_.calls_in(regn)]
+            rec = names.count('collect_identifiers')
+            if rec == 2 and ('extend' in names or 'union' in names) and not ({'intersection', 'retain', 'difference'} & set(names)):
+                rep.ok('R17.1', 'collect_identifiers Lvalue::%s' % ps[0], 'union of both sides')
+            else:
+                rep.viol('R17.1', 'binders|%s|union' % ps[0], 'the names bound by an `%s` pattern are not the union of the names of its two sides (%s): a name bound by only one alternative is treated as free and frozen to the outer value, or freeze fails on a closed expression' % (ps[0].lower(), names), cb_.loc(min(regn)) if regn else None)
+    else:
+        rep.error('R17.1', 'collect_identifiers missing')
 
     # ---------------- R17.4
     rep.rule('R17.4', 'error exits of freeze / freeze_lvalue (unbound identifier, assignment to an unbound name, import, bare underscore) are '
